@@ -252,16 +252,24 @@ class Interp:
         fr.env, self.heap = env0, heap0
         return out
 
-    @staticmethod
-    def _merge(c, a, b):
+    def _merge(self, c, a, b):
         out = {}
+        selfk = sym('self').key
+        # an attribute of `self` that one branch does not assign keeps the value it had on entry -- except inside a
+        # constructor, where it may not exist yet
+        in_ctor = bool(self.frames) and self.frames[0].fi.name == '__init__'
+
+        def missing(k):
+            if not isinstance(k, str) and k[0] == selfk and not in_ctor:
+                return T.mk_attr(sym('self'), k[1])
+            return Term.of(Atom('undef', k if isinstance(k, str) else k[0] + '.' + k[1]))
         for k in set(a) | set(b):
             va = a.get(k)
             vb = b.get(k)
             if va is None:
-                va = Term.of(Atom('undef', k if isinstance(k, str) else k[0] + '.' + k[1]))
+                va = missing(k)
             if vb is None:
-                vb = Term.of(Atom('undef', k if isinstance(k, str) else k[0] + '.' + k[1]))
+                vb = missing(k)
             out[k] = va if va.key == vb.key else T.mk_ite(c, va, vb)
         return out
 
